@@ -40,9 +40,13 @@ fn mk_case(op: Op, dma: u8, ca: &[CellT], dmb: u8, cb: &[CellT], moc: bool) -> C
 /// judge one operator application on explicit operands
 pub fn judge(ctx: &mut Ctx, op: Op, dma: u8, ca: &[CellT], dmb: u8, cb: &[CellT], moc: bool) {
   let a = to_bmoc(dma, ca); let b = to_bmoc(dmb, cb);
+  judge_built(ctx, op, &a, dma, ca, &b, dmb, cb, moc);
+}
+/// same, on operands that already exist (whatever built them: the low-level builder, the fixed-depth builder, an operator, a coverage)
+pub fn judge_built(ctx: &mut Ctx, op: Op, a: &BMOC, dma: u8, ca: &[CellT], b: &BMOC, dmb: u8, cb: &[CellT], moc: bool) {
   let dm = if op == Op::Not { dma } else { dma.max(dmb) };
   ctx.eval();
-  let res = match apply(op, &a, &b) { Ok(r) => r, Err(p) => { ctx.violation(&format!("{}-panics-on-valid-operands", op.name()), mk_case(op, dma, ca, dmb, cb, moc), p); return; } };
+  let res = match apply(op, a, b) { Ok(r) => r, Err(p) => { ctx.violation(&format!("{}-panics-on-valid-operands", op.name()), mk_case(op, dma, ca, dmb, cb, moc), p); return; } };
   if res.get_depth_max() != dm { ctx.violation(&format!("{}-result-depth_max-not-the-max", op.name()), mk_case(op, dma, ca, dmb, cb, moc), format!("{} != {}", res.get_depth_max(), dm)); return; }
   let cells = match walk(&res, 1 << 14) { Ok(_) => cells_of(&res), Err(e) => { ctx.violation(&format!("{}-result-not-well-formed", op.name()), mk_case(op, dma, ca, dmb, cb, moc), e); return; } };
   let (ma, mb, mr) = (to_model(dm, ca), to_model(dm, cb), to_model(dm, &cells));
@@ -222,6 +226,29 @@ fn run(ctx: &mut Ctx, extra: &mut BTreeMap<String, String>, moc: bool) {
       if it % 50 == 1 { let dg = degenerate(dmb); cb = dg[rng.below(dg.len() as u64) as usize].clone(); }
       judge(c, Op::Not, dma, &ca, dmb, &[], moc);
       for &op in ops.iter() { judge(c, op, dma, &ca, dmb, &cb, moc); }
+      // operands of another provenance (one pair in 8): the same content obtained through the fixed-depth builder (when every cell is at
+      // depth_max with one flag value) or as the result of an operator (double complement, union with itself), judged on their decoded entries
+      if it % 8 == 5 {
+        let via = |rng: &mut Rng, dm: u8, cl: &[CellT]| -> Option<BMOC> {
+          let uniform = !cl.is_empty() && cl.iter().all(|x| x.0 == dm && x.2 == cl[0].2);
+          match rng.below(3) {
+            0 if uniform => { let mut bld = cdshealpix::nested::bmoc::BMOCBuilderFixedDepth::with_capacity(dm, cl[0].2, 1 + rng.below(64) as usize); for x in cl { bld.push(x.1); } bld.to_bmoc() }
+            1 => catch(|| to_bmoc(dm, cl).not().not()).ok(),
+            _ => { let t = to_bmoc(dm, cl); catch(|| t.or(&t)).ok() }
+          }
+        };
+        // flatten to depth_max with one flag so that the fixed-depth builder applies to half of these pairs
+        let flat = |dm: u8, cl: &[CellT], f: bool| -> Vec<CellT> { let mut v = Vec::new(); for &(d, h, _) in cl { let s2 = 2 * (dm - d) as u32; if s2 > 8 { continue; } for x in (h << s2)..((h + 1) << s2) { v.push((dm, x, f)); } } v };
+        let (fa, fb) = if rng.coin() { (flat(dma, &ca, moc || rng.coin()), flat(dmb, &cb, moc || rng.coin())) } else { (ca.clone(), cb.clone()) };
+        if let (Some(a2), Some(b2)) = (via(&mut rng, dma, &fa), via(&mut rng, dmb, &fb)) {
+          let (ca2, cb2) = (cells_of(&a2), cells_of(&b2));
+          if a2.get_depth_max() == dma && b2.get_depth_max() == dmb {
+            judge_built(c, Op::Not, &a2, dma, &ca2, &b2, dmb, &[], moc);
+            for &op in ops.iter() { judge_built(c, op, &a2, dma, &ca2, &b2, dmb, &cb2, moc); }
+            c.hard("operands-of-another-provenance(fixed-depth-builder/operator-results)", &[rng.0]);
+          }
+        }
+      }
       if moc && it % 10 == 0 { identities(c, dma, &ca, dmb, &cb); }
       let nontrivial = !ca.is_empty() && !cb.is_empty() && (dma != dmb || ca.iter().any(|x| x.0 != ca[0].0) || cb.iter().any(|x| !x.2));
       if nontrivial { c.hard(if moc { "random-pair:mixed-depths" } else { "random-pair:mixed-flags/depths" }, &[rng.0]); if c.samples.len() < 6 && it % 97 == 0 { c.sample(&mk_case(Op::Or, dma, &ca, dmb, &cb, moc), &format!("or -> {}", apply(Op::Or, &to_bmoc(dma, &ca), &to_bmoc(dmb, &cb)).map(|r| fmt_cells(&cells_of(&r))).unwrap_or_default())); } }
